@@ -17,22 +17,29 @@ Proved for **every** `Scalar R` (no laws, so also for the `Float` instance that 
 
 Proved over every ordered field `F` through `fieldScalar T` (real arithmetic; libm laws only where named):
 * `C05_adiabatic`, `C05_adiabatic_sentinel`   `Tp·exp(α·g·d/cp)`; the parser's `x < 0 ? global : x` is `Spec.orGlobal` by definition;
-* `C05_linear_code`             what `linear` computes, for both copies;
-  `C05_linear_full` (a `Prop`: every copy returns `Spec.areaLinear`), `C05_linear_partial` (true for the oceanic-plate / mantle-layer
-  copy, and for the continental copy when the feature's min depth is not below the model's), `C05_continental_linear_offset`
-  (the continental copy = documented value + `(max(fMin,mn) − mn)·(T_b − T_t)/(z_b − z_t)`), `C05_continental_linear_offset_witness`
-  (feature 50–150 km, model 0–200 km, 300 → 1300 K: 800 K at the local top, documented 300 K, the oceanic copy 300 K),
-  `C05_linear_full_false` (so the full statement is **false** for the code as it is);
-* `C05_chapman_code`            `top + (q/k)Δz − (A/2k)Δz²` with the **raw** `top`; `C05_chapman_full` (with the documented sentinel),
-  `C05_chapman_partial` (`top ≥ 0`), `C05_chapman_sentinel_deviation` (`top < 0`: off by `adiabat(local top) − top`),
-  `C05_chapman_full_false` (assuming only `exp > 0`);
+* `C05_linear_code`             what `linear` computes (one code for all three area features);
+  `C05_linear_full`             every area copy (continental plate, oceanic plate, mantle layer) returns the documented line
+                                `Spec.areaLinear`; `C05_linear_example` (plate 50–150 km, model 0–200 km, 300 → 1300 K: 300 K at the
+                                local top, 1300 K at the local bottom, 800 K half-way);
+* `C05_chapman_code`, `C05_chapman_full`   `T_top + (q/k)Δz − (A/2k)Δz²` for every top temperature, `T_top` adiabatic at the local top
+                                when negative; `C05_chapman_example` (top −1 K gives the positive adiabat);
 * `C05_halfspace`               `T_b + (T_t − T_b)·erfc(d/(2√(κ·age)))` for `age > 0`, `T_b` for `age ≤ 0`, `age = distance/spreading`;
 * `C05_plate_model`, `C05_plate_model_constant_age`   the loops are the documented 100-term sums;
 * `C05_gaussian_upper_bound` (the table position for ascending depths), `C05_gaussian_table`, `C05_gaussian` (needs `pow x 2 = x·x`);
 * `C05_line_linear`, `C05_line_adiabatic`, `C05_slab_smooth`;
-  `C05_fault_smooth_code` (the fault's `smooth` returns the blend **minus the side fraction**), `C05_fault_smooth_full`,
-  `C05_fault_smooth_partial` (side fraction 0, the default), `C05_fault_smooth_full_false`;
+  `C05_fault_smooth_code`, `C05_fault_smooth_full` (the fault's `smooth` is the blend from the centre to the side fraction, for
+  every side fraction), `C05_fault_smooth_example` (centre 1, side 1 gives 1 everywhere);
 * `C05_uniform_grains_total`    the sizes of a `< 0` entry sum to 1.
+
+History: earlier versions of this file kept `C05_linear_full`, `C05_chapman_full` and `C05_fault_smooth_full` as `Prop`s and
+REFUTED them for the code as it then was (continental `linear` offset by `d − mn`: 800 K instead of 300 K at the local top;
+`chapman` using the raw negative top temperature; fault `smooth` returning the blend minus the side fraction).  The three
+defects were fixed upstream —
+  'fix: continental plate linear temperature measured depth from the model's min depth instead of the local top',
+  'fix: chapman geotherm ignored the adiabatic top temperature it had just computed',
+  'fix: fault smooth composition dropped the side fraction' —
+the model follows the fixed code, and the three statements are now theorems; the former counterexamples are kept as positive
+examples (`C05_linear_example`, `C05_chapman_example`, `C05_fault_smooth_example`).
 
 NOT proved here: that `ridgeDistanceAndSpreading` is the distance to the nearest ridge segment (the ridge result is a hypothesis);
 anything about `Surface.localValue` (the local bounds are whatever the range test returns); the parser (the sentinel
@@ -226,10 +233,11 @@ theorem C05_line_composition_uniform (mn mx : R) (op : Op) (comps : List Nat) (f
     simp only [LineComp.get]
     rw [if_neg h]
 
-/-- **C05** slab / fault `adiabatic`: the adiabat at the point's **depth**, inside the range of `lineAdiabaticTest` (slab: distance
-from the slab top, fault: the depth — as written) -/
+/-- **C05** slab / fault `adiabatic`: the adiabat at the point's **depth**, inside the model's distance range (slab: distance
+from the slab top, fault: |distance from the fault centre|; the fault copy used to test the depth — fixed upstream, 'fix: fault
+adiabatic temperature tested the query depth against its distance range') -/
 theorem C05_line_adiabatic_code (mn mx : R) (op : Op) (tp alpha cp : R) (isFault : Bool) (ctx : Ctx R) (depth g : R) (pd : PlaneDist R) (old : R) :
-    let x := lineAdiabaticTest isFault depth pd
+    let x := lineDist isFault pd.distanceFromPlane
     (x ≤ mx ∧ x ≥ mn → (LineTemp.adiabatic mn mx op tp alpha cp).get isFault ctx depth g pd old = applyOp op old (adiabat tp alpha g cp depth)) ∧
     (¬ (x ≤ mx ∧ x ≥ mn) → (LineTemp.adiabatic mn mx op tp alpha cp).get isFault ctx depth g pd old = old) := by
   intro x
@@ -312,182 +320,121 @@ theorem C05_adiabatic_sentinel (T : Transc F) (rng : DepthRange F) (op : Op) (tp
 example : @Spec.orGlobal ℚ (fieldScalar toyTransc) (-1) 1600 = 1600 ∧ @Spec.orGlobal ℚ (fieldScalar toyTransc) 1500 1600 = 1500 :=
   ⟨spec_orGlobal_neg toyTransc (-1) 1600 (by norm_num), spec_orGlobal_nonneg toyTransc 1500 1600 (by norm_num)⟩
 
-/-- **C05** what `linear` of an area feature computes (`co = true`: continental plate, `false`: oceanic plate / mantle layer):
-between the local top `zT = max(fMin, mn)` and bottom `zB = min(fMax, mx)`, boundary temperatures resolved at those depths,
-the top temperature on a degenerate range, and the offset `d − mn` instead of `d − zT` in the continental copy -/
-theorem C05_linear_code (T : Transc F) (rng : DepthRange F) (op : Op) (top bottom : F) (co : Bool) (ctx : Ctx F) (q : Query F) (old fMin fMax rel mn mx : F)
+/-- **C05** what `linear` of an area feature computes (one code for continental plate, oceanic plate and mantle layer since the
+upstream fix): between the local top `zT = max(fMin, mn)` and bottom `zB = min(fMax, mx)`, boundary temperatures resolved at
+those depths, the top temperature on a degenerate range, with the code's association `(d − zT)·((T_b − T_t)/(zB − zT))` -/
+theorem C05_linear_code (T : Transc F) (rng : DepthRange F) (op : Op) (top bottom : F) (ctx : Ctx F) (q : Query F) (old fMin fMax rel mn mx : F)
     (hl : @DepthRange.locals F (fieldScalar T) rng ctx q false = .ok (some (mn, mx))) :
-    @TempModel.get F (fieldScalar T) (.linear rng op top bottom co) ctx q old fMin fMax rel =
+    @TempModel.get F (fieldScalar T) (.linear rng op top bottom) ctx q old fMin fMax rel =
       .ok (@applyOp F (fieldScalar T) op old
         (let zT := max fMin mn
          let zB := min fMax mx
          let tT := @Spec.orAdiabatic F (fieldScalar T) top ctx.potentialT ctx.alpha q.gravityNorm ctx.cp zT
          let tB := @Spec.orAdiabatic F (fieldScalar T) bottom ctx.potentialT ctx.alpha q.gravityNorm ctx.cp zB
-         if zB - zT < 10 * T.eps then tT else tT + (q.depth - (if co then mn else zT)) * ((tB - tT) / (zB - zT)))) := by
+         if zB - zT < 10 * T.eps then tT else tT + (q.depth - zT) * ((tB - tT) / (zB - zT)))) := by
   simp only [TempModel.get, hl, bind, Except.bind, pure, Except.pure, adiabat_eq_spec]
   congr 2
   unfold Spec.orAdiabatic
   sfield
   split_ifs <;> simp
 
-/-- **C05** full statement for `linear`: every copy returns the documented line `Spec.areaLinear`.  FALSE for the code as it is
-(`C05_linear_full_false`); proved for the oceanic / mantle copy (`C05_linear_partial`) -/
-def C05_linear_full (T : Transc F) : Prop :=
-  ∀ (rng : DepthRange F) (op : Op) (top bottom : F) (co : Bool) (ctx : Ctx F) (q : Query F) (old fMin fMax rel mn mx : F),
-    @DepthRange.locals F (fieldScalar T) rng ctx q false = .ok (some (mn, mx)) →
-    @TempModel.get F (fieldScalar T) (.linear rng op top bottom co) ctx q old fMin fMax rel =
-      .ok (@applyOp F (fieldScalar T) op old
-        (@Spec.areaLinear F (fieldScalar T) top bottom ctx.potentialT ctx.alpha q.gravityNorm ctx.cp fMin fMax mn mx q.depth))
-
-/-- **C05** (partial: `continentalOffset = false`, or the feature does not start below the model's min depth) `linear` returns
-`top + (d − max(fMin,mn))·(bottom − top)/(min(fMax,mx) − max(fMin,mn))` with the adiabatic sentinels and the degenerate branch.
-Missing for the full statement: the continental copy with `fMin > mn`, where it is false -/
-theorem C05_linear_partial (T : Transc F) (rng : DepthRange F) (op : Op) (top bottom : F) (co : Bool) (ctx : Ctx F) (q : Query F)
-    (old fMin fMax rel mn mx : F) (hco : co = false ∨ fMin ≤ mn)
+/-- **C05** `linear` of every area feature (continental plate, oceanic plate, mantle layer) returns the documented line
+`top + (d − max(fMin,mn))·(bottom − top)/(min(fMax,mx) − max(fMin,mn))` with the adiabatic sentinels and the degenerate branch
+(`Spec.areaLinear`).  Earlier versions of this file kept this as a `Prop` and refuted it for the continental copy; the defect
+was fixed upstream ('fix: continental plate linear temperature measured depth from the model's min depth instead of the
+local top') and the statement is now a theorem -/
+theorem C05_linear_full (T : Transc F) (rng : DepthRange F) (op : Op) (top bottom : F) (ctx : Ctx F) (q : Query F)
+    (old fMin fMax rel mn mx : F)
     (hl : @DepthRange.locals F (fieldScalar T) rng ctx q false = .ok (some (mn, mx))) :
-    @TempModel.get F (fieldScalar T) (.linear rng op top bottom co) ctx q old fMin fMax rel =
+    @TempModel.get F (fieldScalar T) (.linear rng op top bottom) ctx q old fMin fMax rel =
       .ok (@applyOp F (fieldScalar T) op old
         (@Spec.areaLinear F (fieldScalar T) top bottom ctx.potentialT ctx.alpha q.gravityNorm ctx.cp fMin fMax mn mx q.depth)) := by
-  rw [C05_linear_code T rng op top bottom co ctx q old fMin fMax rel mn mx hl, spec_areaLinear_field]
+  rw [C05_linear_code T rng op top bottom ctx q old fMin fMax rel mn mx hl, spec_areaLinear_field]
   congr 2
   dsimp only
-  have hoff : (if co = true then mn else max fMin mn) = max fMin mn := by
-    rcases hco with h | h
-    · simp [h]
-    · split_ifs
-      · exact (max_eq_right h).symm
-      · rfl
-  rw [hoff]
   split_ifs
   · rfl
   · ring
 
-/-- **C05** the continental copy: documented value plus `(max(fMin,mn) − mn)·(T_b − T_t)/(z_b − z_t)` on a non-degenerate range -/
-theorem C05_continental_linear_offset (T : Transc F) (rng : DepthRange F) (op : Op) (top bottom : F) (ctx : Ctx F) (q : Query F)
-    (old fMin fMax rel mn mx : F)
-    (hl : @DepthRange.locals F (fieldScalar T) rng ctx q false = .ok (some (mn, mx))) :
-    @TempModel.get F (fieldScalar T) (.linear rng op top bottom true) ctx q old fMin fMax rel =
-      .ok (@applyOp F (fieldScalar T) op old
-        (let zT := max fMin mn
-         let zB := min fMax mx
-         let tT := @Spec.orAdiabatic F (fieldScalar T) top ctx.potentialT ctx.alpha q.gravityNorm ctx.cp zT
-         let tB := @Spec.orAdiabatic F (fieldScalar T) bottom ctx.potentialT ctx.alpha q.gravityNorm ctx.cp zB
-         @Spec.areaLinear F (fieldScalar T) top bottom ctx.potentialT ctx.alpha q.gravityNorm ctx.cp fMin fMax mn mx q.depth +
-           (if zB - zT < 10 * T.eps then 0 else (zT - mn) * (tB - tT) / (zB - zT)))) := by
-  rw [C05_linear_code T rng op top bottom true ctx q old fMin fMax rel mn mx hl, spec_areaLinear_field]
-  congr 2
-  simp only [↓reduceIte]
-  split_ifs
-  · simp
-  · ring
-
-/-- **C05** witness: feature 50–150 km, model 0–200 km, 300 → 1300 K, query at the local top (50 km): the continental copy
-returns 800 K, the documented formula 300 K, the oceanic / mantle copy 300 K -/
-theorem C05_continental_linear_offset_witness (T : Transc F) (heps : 10 * T.eps ≤ 100000) :
-    @TempModel.get F (fieldScalar T) (.linear (constRange 0 200000) .replace 300 1300 true) witnessCtx (witnessQuery 50000) 0 50000 150000 0
-      = .ok 800 ∧
-    @Spec.areaLinear F (fieldScalar T) 300 1300 (witnessCtx (F := F)).potentialT (witnessCtx (F := F)).alpha 10 (witnessCtx (F := F)).cp
-      50000 150000 0 200000 50000 = 300 ∧
-    @TempModel.get F (fieldScalar T) (.linear (constRange 0 200000) .replace 300 1300 false) witnessCtx (witnessQuery 50000) 0 50000 150000 0
-      = .ok 300 := by
-  have hl : @DepthRange.locals F (fieldScalar T) (constRange 0 200000) witnessCtx (witnessQuery 50000) false = .ok (some (0, 200000)) :=
-    constRange_locals T 0 200000 false _ _ (by simp [witnessQuery]) (by simp [witnessQuery]; norm_num)
+/-- **C05** a non-vacuous instance (the former counterexample): plate 50–150 km, model 0–200 km, 300 → 1300 K, any `ε` up to
+10 km.  At the local top (50 km) the model returns 300 K, at the local bottom (150 km) 1300 K, half-way 800 K — before the fix
+the continental copy returned 800 K, 1800 K and 1300 K there -/
+theorem C05_linear_example (T : Transc F) (heps : 10 * T.eps ≤ 100000) :
+    @TempModel.get F (fieldScalar T) (.linear (constRange 0 200000) .replace 300 1300) witnessCtx (witnessQuery 50000) 0 50000 150000 0
+      = .ok 300 ∧
+    @TempModel.get F (fieldScalar T) (.linear (constRange 0 200000) .replace 300 1300) witnessCtx (witnessQuery 150000) 0 50000 150000 0
+      = .ok 1300 ∧
+    @TempModel.get F (fieldScalar T) (.linear (constRange 0 200000) .replace 300 1300) witnessCtx (witnessQuery 100000) 0 50000 150000 0
+      = .ok 800 := by
+  have hl : ∀ d : F, 0 ≤ d → d ≤ 200000 →
+      @DepthRange.locals F (fieldScalar T) (constRange 0 200000) witnessCtx (witnessQuery d) false = .ok (some (0, 200000)) :=
+    fun d h1 h2 => constRange_locals T 0 200000 false _ _ h1 h2
   have hmax : max (50000 : F) 0 = 50000 := max_eq_left (by norm_num)
   have hmin : min (150000 : F) 200000 = 150000 := min_eq_left (by norm_num)
   have hnd : ¬ ((150000 : F) - 50000 < 10 * T.eps) := by
     rw [not_lt]; have : (150000 : F) - 50000 = 100000 := by norm_num
     rw [this]; exact heps
-  have hspec : @Spec.areaLinear F (fieldScalar T) 300 1300 (witnessCtx (F := F)).potentialT (witnessCtx (F := F)).alpha 10 (witnessCtx (F := F)).cp
-      50000 150000 0 200000 50000 = 300 := by
-    rw [spec_areaLinear_field]
-    simp only [hmax, hmin, if_neg hnd]
-    rw [spec_orAdiabatic_nonneg T 300 _ _ _ _ _ (by norm_num)]
-    norm_num
-  refine ⟨?_, hspec, ?_⟩
-  · rw [C05_linear_code T _ _ _ _ _ _ _ _ _ _ _ _ _ hl]
-    simp only [hmax, hmin, if_neg hnd, applyOp_field, if_true, witnessQuery]
+  refine ⟨?_, ?_, ?_⟩
+  · rw [C05_linear_code T _ _ _ _ _ _ _ _ _ _ _ _ (hl 50000 (by norm_num) (by norm_num))]
+    simp only [hmax, hmin, if_neg hnd, applyOp_field, witnessQuery]
     rw [spec_orAdiabatic_nonneg T 300 _ _ _ _ _ (by norm_num), spec_orAdiabatic_nonneg T 1300 _ _ _ _ _ (by norm_num)]
     norm_num
-  · rw [C05_linear_partial T _ _ _ _ _ _ _ _ _ _ _ _ _ (Or.inl rfl) hl]
-    simp only [applyOp_field]
-    exact congrArg _ hspec
+  · rw [C05_linear_code T _ _ _ _ _ _ _ _ _ _ _ _ (hl 150000 (by norm_num) (by norm_num))]
+    simp only [hmax, hmin, if_neg hnd, applyOp_field, witnessQuery]
+    rw [spec_orAdiabatic_nonneg T 300 _ _ _ _ _ (by norm_num), spec_orAdiabatic_nonneg T 1300 _ _ _ _ _ (by norm_num)]
+    norm_num
+  · rw [C05_linear_code T _ _ _ _ _ _ _ _ _ _ _ _ (hl 100000 (by norm_num) (by norm_num))]
+    simp only [hmax, hmin, if_neg hnd, applyOp_field, witnessQuery]
+    rw [spec_orAdiabatic_nonneg T 300 _ _ _ _ _ (by norm_num), spec_orAdiabatic_nonneg T 1300 _ _ _ _ _ (by norm_num)]
+    norm_num
 
 example : 10 * toyTransc.eps ≤ 100000 := by norm_num [toyTransc]
 
-/-- **C05** the full statement for `linear` is false (for every `ε` up to 10 km) -/
-theorem C05_linear_full_false (T : Transc F) (heps : 10 * T.eps ≤ 100000) : ¬ C05_linear_full T := by
-  intro h
-  obtain ⟨h1, h2, _⟩ := C05_continental_linear_offset_witness T heps
-  have hl : @DepthRange.locals F (fieldScalar T) (constRange 0 200000) witnessCtx (witnessQuery 50000) false = .ok (some (0, 200000)) :=
-    constRange_locals T 0 200000 false _ _ (by simp [witnessQuery]) (by simp [witnessQuery]; norm_num)
-  have := h (constRange 0 200000) .replace 300 1300 true witnessCtx (witnessQuery 50000) 0 50000 150000 0 0 200000 hl
-  rw [h1] at this
-  simp only [applyOp_field, Except.ok.injEq] at this
-  have h2' : @Spec.areaLinear F (fieldScalar T) 300 1300 (witnessCtx (F := F)).potentialT (witnessCtx (F := F)).alpha
-      (witnessQuery (50000 : F)).gravityNorm (witnessCtx (F := F)).cp 50000 150000 0 200000 (witnessQuery (50000 : F)).depth = 300 := h2
-  rw [h2'] at this
-  norm_num at this
-
-/-- **C05** what `chapman` computes: `top + (q/k)·Δz − (A/(2k))·Δz²`, `Δz = d − max(fMin, mn)`, with the raw `top` (the adiabatic
-value computed for a negative `top` is not used) -/
+/-- **C05** what `chapman` computes: `T_top + (q/k)·Δz − (A/(2k))·Δz²`, `Δz = d − max(fMin, mn)`, where `T_top` is the configured
+top temperature or — negative — the adiabat at the local top (since the upstream fix the value computed for the sentinel is
+the one that is used) -/
 theorem C05_chapman_code (T : Transc F) (rng : DepthRange F) (op : Op) (top flux k heat : F) (ctx : Ctx F) (q : Query F)
     (old fMin fMax rel mn mx : F)
     (hl : @DepthRange.locals F (fieldScalar T) rng ctx q false = .ok (some (mn, mx))) :
     @TempModel.get F (fieldScalar T) (.chapman rng op top flux k heat) ctx q old fMin fMax rel =
-      .ok (@applyOp F (fieldScalar T) op old (@Spec.chapman F (fieldScalar T) top flux k heat (q.depth - max fMin mn))) := by
-  simp only [TempModel.get, hl, bind, Except.bind, pure, Except.pure]
+      .ok (@applyOp F (fieldScalar T) op old
+        (@Spec.chapman F (fieldScalar T)
+          (@Spec.orAdiabatic F (fieldScalar T) top ctx.potentialT ctx.alpha q.gravityNorm ctx.cp (max fMin mn))
+          flux k heat (q.depth - max fMin mn))) := by
+  simp only [TempModel.get, hl, bind, Except.bind, pure, Except.pure, adiabat_eq_spec]
   congr 2
-  unfold Spec.chapman
+  unfold Spec.chapman Spec.orAdiabatic
   sfield
   ring
 
-/-- **C05** full statement for `chapman`, with the documented sentinel ("If the value is below zero, then an adiabatic temperature
-is used.").  FALSE for the code as it is (`C05_chapman_full_false`) -/
-def C05_chapman_full (T : Transc F) : Prop :=
-  ∀ (rng : DepthRange F) (op : Op) (top flux k heat : F) (ctx : Ctx F) (q : Query F) (old fMin fMax rel mn mx : F),
-    @DepthRange.locals F (fieldScalar T) rng ctx q false = .ok (some (mn, mx)) →
-    @TempModel.get F (fieldScalar T) (.chapman rng op top flux k heat) ctx q old fMin fMax rel =
-      .ok (@applyOp F (fieldScalar T) op old
-        (@Spec.chapmanDocumented F (fieldScalar T) top flux k heat ctx.potentialT ctx.alpha q.gravityNorm ctx.cp fMin mn q.depth))
-
-/-- **C05** (partial: `top ≥ 0`) `chapman` returns the documented geotherm.  Missing: `top < 0`, where it is false -/
-theorem C05_chapman_partial (T : Transc F) (rng : DepthRange F) (op : Op) (top flux k heat : F) (ctx : Ctx F) (q : Query F)
-    (old fMin fMax rel mn mx : F) (htop : 0 ≤ top)
+/-- **C05** `chapman` returns the documented geotherm for **every** top temperature, the sentinel included ("If the value is
+below zero, then an adiabatic temperature is used.").  Earlier versions of this file kept this as a `Prop` and refuted it for
+`top < 0`; the defect was fixed upstream ('fix: chapman geotherm ignored the adiabatic top temperature it had just computed')
+and the statement is now a theorem -/
+theorem C05_chapman_full (T : Transc F) (rng : DepthRange F) (op : Op) (top flux k heat : F) (ctx : Ctx F) (q : Query F)
+    (old fMin fMax rel mn mx : F)
     (hl : @DepthRange.locals F (fieldScalar T) rng ctx q false = .ok (some (mn, mx))) :
     @TempModel.get F (fieldScalar T) (.chapman rng op top flux k heat) ctx q old fMin fMax rel =
       .ok (@applyOp F (fieldScalar T) op old
         (@Spec.chapmanDocumented F (fieldScalar T) top flux k heat ctx.potentialT ctx.alpha q.gravityNorm ctx.cp fMin mn q.depth)) := by
   rw [C05_chapman_code T rng op top flux k heat ctx q old fMin fMax rel mn mx hl]
   unfold Spec.chapmanDocumented
-  simp only [smax_eq, spec_orAdiabatic_nonneg T top _ _ _ _ _ htop]
+  simp only [smax_eq]
 
-/-- **C05** with the sentinel the code's value is the documented one shifted by `top − adiabat(local top)`: a negative number of
-kelvins at the surface instead of about the potential temperature -/
-theorem C05_chapman_sentinel_deviation (T : Transc F) (rng : DepthRange F) (op : Op) (top flux k heat : F) (ctx : Ctx F) (q : Query F)
-    (old fMin fMax rel mn mx : F) (htop : top < 0)
-    (hl : @DepthRange.locals F (fieldScalar T) rng ctx q false = .ok (some (mn, mx))) :
-    @TempModel.get F (fieldScalar T) (.chapman rng op top flux k heat) ctx q old fMin fMax rel =
-      .ok (@applyOp F (fieldScalar T) op old
-        (@Spec.chapmanDocumented F (fieldScalar T) top flux k heat ctx.potentialT ctx.alpha q.gravityNorm ctx.cp fMin mn q.depth
-          - (ctx.potentialT * T.exp (ctx.alpha * q.gravityNorm * max fMin mn / ctx.cp) - top))) := by
-  rw [C05_chapman_code T rng op top flux k heat ctx q old fMin fMax rel mn mx hl]
-  unfold Spec.chapmanDocumented
-  simp only [smax_eq, spec_orAdiabatic_neg T top _ _ _ _ _ htop, spec_chapman_field]
-  congr 2
-  ring
-
-/-- **C05** the full statement for `chapman` is false as soon as `exp` is positive (top −1 K, potential temperature 1600 K) -/
-theorem C05_chapman_full_false (T : Transc F) (hexp : ∀ x, 0 < T.exp x) : ¬ C05_chapman_full T := by
-  intro h
+/-- **C05** a non-vacuous instance with the sentinel (the former counterexample): top temperature −1 K, no heat flux or
+production, query at the surface of a 0–200 km model: the result is the adiabat `1600·exp(0·10·0/1)` of the witness world, a
+positive temperature when `exp` is positive — before the fix it was −1 K -/
+theorem C05_chapman_example (T : Transc F) (hexp : ∀ x, 0 < T.exp x) :
+    ∃ v, @TempModel.get F (fieldScalar T) (.chapman (constRange 0 200000) .replace (-1) 0 1 0) witnessCtx (witnessQuery 0) 0 0 200000 0 = .ok v ∧
+      v = 1600 * T.exp (0 * 10 * max 0 0 / 1) ∧ 0 < v := by
   have hl : @DepthRange.locals F (fieldScalar T) (constRange 0 200000) witnessCtx (witnessQuery 0) false = .ok (some (0, 200000)) :=
     constRange_locals T 0 200000 false _ _ (by simp [witnessQuery]) (by simp [witnessQuery])
-  have h1 := h (constRange 0 200000) .replace (-1) 0 1 0 witnessCtx (witnessQuery 0) 0 0 200000 0 0 200000 hl
-  rw [C05_chapman_sentinel_deviation T _ _ _ _ _ _ _ _ _ _ _ _ _ _ (by norm_num) hl] at h1
-  simp only [applyOp_field, Except.ok.injEq] at h1
-  have hpos : (0 : F) < (witnessCtx (F := F)).potentialT *
-      T.exp ((witnessCtx (F := F)).alpha * (witnessQuery (0 : F)).gravityNorm * max 0 0 / (witnessCtx (F := F)).cp) :=
-    mul_pos (by simp [witnessCtx]) (hexp _)
-  linarith
+  refine ⟨_, C05_chapman_code T _ _ _ _ _ _ _ _ _ _ _ _ _ _ hl, ?_, ?_⟩
+  · simp only [applyOp_field, spec_chapman_field, spec_orAdiabatic_neg T (-1) _ _ _ _ _ (by norm_num), witnessCtx, witnessQuery]
+    ring
+  · simp only [applyOp_field, spec_chapman_field, spec_orAdiabatic_neg T (-1) _ _ _ _ _ (by norm_num), witnessCtx, witnessQuery]
+    have := hexp (0 * 10 * max 0 0 / 1)
+    nlinarith
 
 example : ∀ x, 0 < toyTransc.exp x := fun _ => by norm_num [toyTransc]
 
@@ -633,11 +580,11 @@ theorem C05_line_linear (T : Transc F) (mn mx : F) (op : Op) (top bottom : F) (i
 
 /-- **C05** slab / fault `adiabatic`: `Tp·exp(α·g·depth/cp)` -/
 theorem C05_line_adiabatic (T : Transc F) (mn mx : F) (op : Op) (tp alpha cp : F) (isFault : Bool) (ctx : Ctx F) (depth g : F) (pd : PlaneDist F) (old : F)
-    (h : (if isFault then depth else pd.distanceFromPlane) ≤ mx ∧ mn ≤ (if isFault then depth else pd.distanceFromPlane)) :
+    (h : @lineDist F (fieldScalar T) isFault pd.distanceFromPlane ≤ mx ∧ mn ≤ @lineDist F (fieldScalar T) isFault pd.distanceFromPlane) :
     @LineTemp.get F (fieldScalar T) (.adiabatic mn mx op tp alpha cp) isFault ctx depth g pd old =
       @applyOp F (fieldScalar T) op old (tp * T.exp (alpha * g * depth / cp)) := by
-  have h' : @LE.le F (fieldScalar T).toLE (@lineAdiabaticTest F isFault depth pd) mx ∧
-      @GE.ge F (fieldScalar T).toLE (@lineAdiabaticTest F isFault depth pd) mn := h
+  have h' : @LE.le F (fieldScalar T).toLE (@lineDist F (fieldScalar T) isFault pd.distanceFromPlane) mx ∧
+      @GE.ge F (fieldScalar T).toLE (@lineDist F (fieldScalar T) isFault pd.distanceFromPlane) mn := h
   rw [(@C05_line_adiabatic_code F (fieldScalar T) mn mx op tp alpha cp isFault ctx depth g pd old).1 h', adiabat_eq_spec, spec_adiabatic_field]
 
 /-- **C05** slab `smooth`: the `tanh` blend from the top to the bottom fraction -/
@@ -665,13 +612,13 @@ theorem C05_slab_smooth (T : Transc F) (mn mx side : F) (op : Op) (comps : List 
       rw [harg]
       ring
 
-/-- **C05** what the fault's `smooth` computes: the blend **without** the side fraction as base line, `(c − s)·w` instead of
-`s + (c − s)·w` -/
+/-- **C05** what the fault's `smooth` computes for a listed label, missing table entries included: the `tanh` blend from the
+centre fraction to the side fraction (no range test in the fault copy) -/
 theorem C05_fault_smooth_code (T : Transc F) (mn mx side : F) (op : Op) (comps : List Nat) (cF sF : List F) (pd : PlaneDist F) (n : Nat) (old : F)
     (hn : n ∈ comps) :
     @LineComp.get F (fieldScalar T) (.smooth mn mx side op comps cF sF) true pd n old =
       (match Spec.listed comps cF n, Spec.listed comps sF n with
-       | some c, some s => .ok (@applyOp F (fieldScalar T) op old (@Spec.smoothFault F (fieldScalar T) c s side pd.distanceFromPlane - s))
+       | some c, some s => .ok (@applyOp F (fieldScalar T) op old (@Spec.smoothFault F (fieldScalar T) c s side pd.distanceFromPlane))
        | _, _ => .error .internal) := by
   simp only [LineComp.get, if_true]
   simp only [findComposition_of_mem comps n hn, Spec.listed, hn, if_true, idx]
@@ -687,29 +634,22 @@ theorem C05_fault_smooth_code (T : Transc F) (mn mx side : F) (op : Op) (comps :
       sfield
       ring
 
-/-- **C05** full statement for the fault's `smooth`: the blend from the centre fraction to the side fraction.  FALSE for the code
-as it is when the side fraction is not zero (`C05_fault_smooth_full_false`) -/
-def C05_fault_smooth_full (T : Transc F) : Prop :=
-  ∀ (mn mx side : F) (op : Op) (comps : List Nat) (cF sF : List F) (pd : PlaneDist F) (n : Nat) (old c s : F),
-    n ∈ comps → Spec.listed comps cF n = some c → Spec.listed comps sF n = some s →
+/-- **C05** the fault's `smooth` returns the documented blend `s + (c − s)·(1 − tanh(10·(x − side/2)/side))/2` from the centre
+fraction `c` to the side fraction `s`, for every side fraction.  Earlier versions of this file kept this as a `Prop` and
+refuted it for `s ≠ 0` (the code returned the blend minus `s`); the defect was fixed upstream ('fix: fault smooth composition
+dropped the side fraction') and the statement is now a theorem -/
+theorem C05_fault_smooth_full (T : Transc F) (mn mx side : F) (op : Op) (comps : List Nat) (cF sF : List F) (pd : PlaneDist F) (n : Nat)
+    (old c s : F) (hn : n ∈ comps) (hc : Spec.listed comps cF n = some c) (hs : Spec.listed comps sF n = some s) :
     @LineComp.get F (fieldScalar T) (.smooth mn mx side op comps cF sF) true pd n old =
-      .ok (@applyOp F (fieldScalar T) op old (@Spec.smoothFault F (fieldScalar T) c s side pd.distanceFromPlane))
-
-/-- **C05** (partial: side fraction 0, the default) the fault's `smooth` returns the documented blend.  Missing: side fraction ≠ 0 -/
-theorem C05_fault_smooth_partial (T : Transc F) (mn mx side : F) (op : Op) (comps : List Nat) (cF sF : List F) (pd : PlaneDist F) (n : Nat) (old c : F)
-    (hn : n ∈ comps) (hc : Spec.listed comps cF n = some c) (hs : Spec.listed comps sF n = some 0) :
-    @LineComp.get F (fieldScalar T) (.smooth mn mx side op comps cF sF) true pd n old =
-      .ok (@applyOp F (fieldScalar T) op old (@Spec.smoothFault F (fieldScalar T) c 0 side pd.distanceFromPlane)) := by
+      .ok (@applyOp F (fieldScalar T) op old (@Spec.smoothFault F (fieldScalar T) c s side pd.distanceFromPlane)) := by
   rw [C05_fault_smooth_code T mn mx side op comps cF sF pd n old hn, hc, hs]
-  simp
 
-/-- **C05** the full statement for the fault's `smooth` is false: centre fraction 1 and side fraction 1 are documented to give 1
-everywhere; the code returns 0 -/
-theorem C05_fault_smooth_full_false (T : Transc F) : ¬ C05_fault_smooth_full T := by
-  intro h
-  have h1 := h 0 0 1 .replace [0] [1] [1] ⟨0, 0, 0, 0, 0, 0, 0, 0, ⟨0, 0, 0⟩⟩ 0 0 1 1 (by simp) (by simp [Spec.listed]) (by simp [Spec.listed])
-  rw [C05_fault_smooth_code T 0 0 1 .replace [0] [1] [1] _ 0 0 (by simp)] at h1
-  simp [Spec.listed, applyOp_field] at h1
+/-- **C05** a non-vacuous instance (the former counterexample): centre fraction 1 and side fraction 1 give 1 at every distance,
+whatever `tanh` is — before the fix the code returned 0 -/
+theorem C05_fault_smooth_example (T : Transc F) (side : F) (pd : PlaneDist F) :
+    @LineComp.get F (fieldScalar T) (.smooth 0 0 side .replace [0] [1] [1]) true pd 0 0 = .ok 1 := by
+  rw [C05_fault_smooth_full T 0 0 side .replace [0] [1] [1] pd 0 0 1 1 (by simp) (by simp [Spec.listed]) (by simp [Spec.listed])]
+  simp [applyOp_field, spec_smoothFault_field]
 
 /-- **C05** `uniform` grains with a negative size entry: `k` grains of size `1/k`, total 1 (doc: "the size will be set so that the
 total is equal to 1") -/
